@@ -218,10 +218,23 @@ Definition run_slash (c impl : sexp) : sexp :=
              | RError E404 => "404" | RError (E405 _) => "405" | RError E415 => "415" | RError E406 => "406"
              | RPanic => "panic"
              end%string in
+  (* through ServeHTTP: when the mux the container builds for these services (Add in table order) hands both p and
+     p/ to dispatch, the two answers are the same there too *)
+  let st := cs_run cs_init (map (fun w => RAdd (s_root w) (s_routes w)) (t_services t)) 0 in
+  let both_dispatch :=
+    match snd st with
+    | Some _ => false
+    | None => match mux_serve (cs_mux (fst st)) (rq_path req), mux_serve (cs_mux (fst st)) (rq_path req2) with
+              | MTarget TDispatch, MTarget TDispatch => true
+              | _, _ => false
+              end
+    end in
   Lst [ Lst [routed_obs t x1; routed_obs t x2];
-        Lst [ verdict "c14_same_outcome" (implb in_scope (sexp_eqb i1 i2)) ];
+        Lst [ verdict "c14_same_outcome" (implb in_scope (sexp_eqb i1 i2));
+              verdict "c14_same_outcome_through_servehttp"
+                (implb (in_scope && both_dispatch) (sexp_eqb (sx_nth 2 impl) (sx_nth 3 impl))) ];
         A (L cls);
-        Lst [ verdict "in_scope" in_scope;
+        Lst [ verdict "in_scope" in_scope; verdict "both_reach_dispatch_through_the_mux" both_dispatch;
               verdict "hypotheses_of_C14_jsr"
                 (match t_router t with
                  | Jsr311 => table_plain O t && negb (match rev (rq_path req) with ch :: _ => Ascii.eqb ch slash | [] => true end)
@@ -488,6 +501,8 @@ Definition run_disp (c impl : sexp) : sexp :=
   let v_c10_noescape := forallb (fun x => let h := fst (fst x) in let io := snd x in
                                    implb (d_recover cfg && negb (is_plain h)) (Nat.eqb (List.length (sx_list (sx_nth 0 io))) 0)) per in
   let v_c10_once := forallb (fun io => implb (d_recover cfg) (Z.leb (sx_int (sx_nth 6 io)) 1)) i_seq in
+  (* ... and exactly once per recovered panic, whether or not output had been written: as often as the model says *)
+  let v_c10_told := forallb (fun x => sexp_eqb (sx_nth 6 (res_obs (snd (fst x)))) (sx_nth 6 (snd x))) per in
   let v_c10_ledger := Z.eqb (sx_int (sx_nth 0 led)) (sx_int (sx_nth 1 led))
                       && Z.eqb (sx_int (sx_nth 2 led)) 0 && Z.eqb (sx_int (sx_nth 3 led)) 0
                       && Z.eqb (sx_int (sx_nth 4 led)) 0 in
@@ -542,6 +557,7 @@ Definition run_disp (c impl : sexp) : sexp :=
               verdict "c07_concurrent_responses_decode" v_c07_conc;
               verdict "c10_panic_does_not_escape" v_c10_noescape;
               verdict "c10_recover_handler_at_most_once" v_c10_once;
+              verdict "c10_recover_handler_told_of_every_panic" v_c10_told;
               verdict "c10_compressors_released_once" v_c10_ledger;
               verdict "c13_every_acquired_compressor_released_once" v_c10_ledger;
               verdict "c10_body_complete" v_c10_decodes;
@@ -761,7 +777,7 @@ Definition run_ent (c impl : sexp) : sexp :=
       let codec := sx_int (sx_nth 3 rq) in
       let enc := sx_int (sx_nth 5 rq) in
       Z.eqb (sx_int (sx_nth 6 rq)) 0 &&
-      str_eqb (sx_str (sx_nth 1 rq)) (match enc with 0 => [] | 1 => L "gzip" | _ => L "deflate" end)%Z &&
+      str_eqb (sx_str (sx_nth 1 rq)) (match enc with 0 => [] | 1 => L "gzip" | 3 => L "gzip" | _ => L "deflate" end)%Z &&
       (let ct := sx_str (sx_nth 0 rq) in
        if Z.eqb codec 0 then has_prefix ct (L "application/json") || has_prefix ct (L "application/vnd.x+json")
        else has_prefix ct (L "application/xml")) in
